@@ -407,7 +407,7 @@ def deep_equal(interp, a, b):
         return band([deep_equal(interp, a[k], b[k]) for k in a])
     if a is b:
         return True
-    if type(a).__module__ == 'numpy' and hasattr(a, 'shape') and type(b).__module__ == 'numpy' and hasattr(b, 'shape'):
+    if _is_nd(a) and _is_nd(b):
         if a.shape != b.shape or a.dtype != b.dtype:
             return False
         if a.dtype != object:
@@ -571,7 +571,7 @@ def input_vars(v, out=None):
             input_vars(x, out)
     elif isinstance(v, Obj):
         input_vars(v.fields, out)
-    elif type(v).__module__ == 'numpy' and getattr(v, 'dtype', None) == object:
+    elif _is_nd(v) and v.dtype == object:
         for x in v.flat:
             input_vars(x, out)
     elif isinstance(v, SymSeq):
@@ -598,6 +598,11 @@ ANY = _Any()
 
 def _has_callee_var(t):
     return any(s.op == 'var' and '#' in s.val for s in tm.subterms(t))
+
+
+def _is_nd(v):
+    import numpy as np
+    return isinstance(v, np.ndarray)
 
 
 def concretize(v, env, funs=REAL_FUNS):
@@ -640,12 +645,13 @@ def concretize(v, env, funs=REAL_FUNS):
     if tn == 'ArrVal':
         import numpy as np
         return np.asarray([[concretize(x, env, funs) for x in r] for r in v.rows], object)
-    if type(v).__module__ == 'numpy' and getattr(v, 'dtype', None) == object and hasattr(v, 'flat'):
+    if _is_nd(v) and v.dtype == object:
         import numpy as np
         out = np.empty(v.size, object)
         for k, x in enumerate(v.flat):
             out[k] = concretize(x, env, funs)
-        return out.reshape(v.shape)
+        out = out.reshape(v.shape)
+        return out.view(type(v)) if type(v) is not np.ndarray else out
     return v
 
 
@@ -769,6 +775,8 @@ def py_equal(a, b):
         return True
     if (type(a).__name__ in ('Closure', 'MethodClosure') and callable(b)) or (type(b).__name__ in ('Closure', 'MethodClosure') and callable(a)):
         return getattr(a, 'name', getattr(a, '__name__', None)) == getattr(b, 'name', getattr(b, '__name__', None))
+    if _is_nd(a) and _is_nd(b):
+        return type(a) is type(b) and a.shape == b.shape and all(py_equal(x, y) for x, y in zip(a.ravel().tolist(), b.ravel().tolist()))
     if type(a) is type(b) and hasattr(a, '__dict__') and not isinstance(a, (type, str, int, float, tuple, NativeOpaque, NativeFn)) \
             and type(a).__eq__ is object.__eq__ and (type(a).__module__ or '').split('.')[0] in ('formulas', 'contracts'):
         # instances of repository classes without their own __eq__: compared by their fields
